@@ -314,7 +314,30 @@ def chk_pair(c, note):
     return None
 
 
+# ------------------------------------------------------------------ coverage-guided campaign (thorough tier)
+def fuzz_decode(fdp):
+    df = fdp.ConsumeIntInRange(0, 31)
+    tc = fdp.ConsumeIntInRange(0, 31) if df in (17, 18) else None
+    st3 = fdp.ConsumeIntInRange(0, 7) if tc is not None else None
+    return {"df": df, "tc": tc, "st3": st3, "low48": fdp.ConsumeIntInRange(0, (1 << 48) - 1), "ctx_addr": fdp.ConsumeIntInRange(0, (1 << 24) - 1),
+            "ctx_head": fdp.ConsumeIntInRange(0, (1 << 27) - 1), "hc": "ULM"[fdp.ConsumeIntInRange(0, 2)]}
+
+
+fuzz_check = chk_cell
+
+
+def enum_atheris(ctx):
+    from vlib import fuzzleg
+    yield from fuzzleg.campaign("c14", ctx, runs_quick=0, runs_thorough=60000, shards=4, max_len=24)
+
+
+def chk_atheris(case, note):
+    from vlib import fuzzleg
+    return fuzzleg.judge(case, note, chk_cell)
+
+
 LEGS = [
+    Leg("atheris_cells", chk_atheris, enum=enum_atheris, shards_quick=1, shards_thorough=4, doc="libFuzzer campaign over the cell encoding with the cell oracle inside the target (thorough tier only)"),
     Leg("cells", chk_cell, enum=enum_cells, exhaustive=True, doc="DF x TC x 3-bit subtype cell table x payloads x every public function"),
     Leg("pair_dispatch", chk_pair, enum=enum_pairs, exhaustive=False, doc="position() routes by the two type codes alone; same parity / mixed classes -> RuntimeError"),
 ]
